@@ -1,14 +1,1004 @@
-//! C08 — not built yet.
-use crate::engine::{Ctx, Property};
+//! C08 — subsetting preserves the character mapping of retained glyphs.
+//!
+//! Source mapping S = the subtable the documented preference order selects, read by the
+//! independent reader `refmodel::cmap` (characters derived per encoding). A font (fixture or a
+//! generated `BasicFont` whose cmap stresses the writer) is subset through `subset::subset` and
+//! `subset::prince::subset` (Unrestricted, MacRoman, MacRomanCmap(array), Omit). The output cmap
+//! is read by the same independent reader and must equal {c -> new_id(S[c]) : S[c] retained}
+//! exactly (nothing dropped, nothing invented), restricted to Mac Roman characters for the
+//! MacRoman target; `Font::lookup_glyph_index` on the reloaded subset must agree.
+
+use crate::engine::util::{mix64, pick};
+use crate::engine::{fixtures, CaseResult, Ctx, Fail, Property, Rec};
+use crate::fontgen::basic::{os2_v4, BasicFont};
+use crate::fontgen::cmap::{self as enc, Chooser};
+use crate::fontgen::sfnt::{build_sfnt, find_table, parse_directory, OTTO, TTF};
+use crate::props::c06::{self, RecModel};
+use crate::refmodel::cmap::{self as rm, Enc};
+use allsorts::binary::read::ReadScope;
+use allsorts::font::{Font, MatchingPresentation};
+use allsorts::font_data::FontData;
+use allsorts::subset::prince::PrinceCmapTarget;
+use proptest::prelude::*;
+use std::collections::{BTreeMap, BTreeSet, HashMap};
+use std::sync::{Arc, Mutex, OnceLock};
 
 pub struct C08;
+
+fn fail(kind: &str, msg: String) -> Fail {
+    Fail::new(format!("C08:{}", kind), msg)
+}
+
+/// A character as the subsetter's documentation distinguishes them: a Unicode scalar value, or
+/// a code of a Windows Symbol subtable (outside Unicode).
+#[derive(Clone, Copy, Debug, PartialEq, Eq, PartialOrd, Ord)]
+pub enum Ch {
+    Uni(u32),
+    Sym(u32),
+}
+
+// ---------------------------------------------------------------------------------------------
+// source fonts
+
+#[derive(Clone, Copy, Debug, PartialEq, Eq)]
+pub enum Flavour {
+    Ttf,
+    Cff,
+    Cff2,
+    Other,
+}
+
+#[derive(Debug)]
+pub struct Source {
+    pub name: String,
+    pub bytes: Vec<u8>,
+    pub flavour: Flavour,
+    pub num_glyphs: u16,
+    /// OS/2.usFirstCharIndex, None without OS/2
+    pub first_char: Option<u16>,
+    pub enc: Enc,
+    pub format: u16,
+    pub platform_encoding: (u16, u16),
+    /// the selected subtable: code -> glyph (glyph != 0), by the independent reader
+    pub table: BTreeMap<u32, u16>,
+}
+
+/// Independent view of a bare sfnt: selected cmap subtable, glyph count, flavour.
+/// Err(reason) when the font is not usable as a subsetting source for this check.
+pub fn read_source(name: &str, bytes: Vec<u8>) -> Result<Source, String> {
+    let (flav, dir) = parse_directory(&bytes).ok_or("no sfnt directory")?;
+    let has = |t: &[u8; 4]| dir.iter().any(|e| &e.tag == t);
+    let flavour = if has(b"glyf") && has(b"loca") {
+        Flavour::Ttf
+    } else if has(b"CFF ") {
+        Flavour::Cff
+    } else if has(b"CFF2") {
+        Flavour::Cff2
+    } else {
+        Flavour::Other
+    };
+    let _ = flav;
+    let maxp = find_table(&bytes, b"maxp").ok_or("no maxp")?;
+    if maxp.len() < 6 {
+        return Err("short maxp".into());
+    }
+    let num_glyphs = u16::from_be_bytes([maxp[4], maxp[5]]);
+    let first_char = find_table(&bytes, b"OS/2").and_then(|t| t.get(64..66)).map(|b| u16::from_be_bytes([b[0], b[1]]));
+    let cmap = find_table(&bytes, b"cmap").ok_or("no cmap")?;
+    let recs = rm::records(cmap).ok_or("bad cmap header")?;
+    let (k, e) = rm::select(&recs).ok_or("no supported cmap record")?;
+    let st = rm::subtable(cmap, recs[k].offset).ok_or("selected subtable has an unsupported format")?;
+    let table = st.mappings(400_000).ok_or("selected subtable is malformed")?;
+    let format = st.format;
+    let pe = (recs[k].platform, recs[k].encoding);
+    Ok(Source { name: name.to_string(), flavour, num_glyphs, first_char, enc: e, format, platform_encoding: pe, table, bytes })
+}
+
+/// is `c` in allsorts' Mac Roman set (Mac OS Roman minus the fifteen codes it leaves undefined
+/// by design)? U+00A4 / U+20AC (code 0xDB) are answered by `disputed`.
+fn mac_set_code(c: u32) -> Option<u8> {
+    match rm::mac_roman_encode(c) {
+        Some(b) if !rm::mac_roman_pdf_excluded(b) => Some(b),
+        _ => None,
+    }
+}
+
+#[derive(Default, Debug)]
+pub struct SourceChars {
+    /// character -> old glyph id (non-zero)
+    pub map: BTreeMap<Ch, u16>,
+    /// characters about which nothing is asserted
+    pub disputed: BTreeSet<Ch>,
+    pub notes: BTreeSet<&'static str>,
+}
+
+/// The characters the source's selected subtable maps, per encoding.
+pub fn source_chars(src: &Source) -> Result<SourceChars, &'static str> {
+    let mut out = SourceChars::default();
+    match src.enc {
+        Enc::Unicode => {
+            for (c, g) in &src.table {
+                if char::from_u32(*c).is_some() {
+                    out.map.insert(Ch::Uni(*c), *g);
+                } else {
+                    out.notes.insert("source:non-scalar-code");
+                }
+            }
+        }
+        Enc::Symbol => {
+            for (c, g) in &src.table {
+                out.map.insert(Ch::Sym(*c), *g);
+            }
+        }
+        Enc::MacRoman => {
+            for (c, g) in &src.table {
+                if *c > 255 {
+                    // not a Mac OS Roman code; outside the documented input domain
+                    return Err("mac-roman-code-above-255");
+                }
+                let b = *c as u8;
+                if b == 0xDB {
+                    out.disputed.insert(Ch::Uni(0x20AC));
+                    out.disputed.insert(Ch::Uni(rm::MAC_ROMAN_DB_OLD));
+                } else if rm::mac_roman_pdf_excluded(b) {
+                    out.notes.insert("source:mac-roman-code-undefined-by-design");
+                } else {
+                    out.map.insert(Ch::Uni(rm::mac_roman_decode(b)), *g);
+                }
+            }
+        }
+        Enc::Big5 => {
+            // a character is looked up under the code the encoder gives it
+            for (code, g) in &src.table {
+                if *code > 0xFFFF {
+                    continue;
+                }
+                match rm::big5_decode(*code as u16) {
+                    Some(v) if v.len() == 1 => {
+                        let c = v[0];
+                        if rm::big5_encode(c).map(u32::from) == Some(*code) {
+                            out.map.insert(Ch::Uni(c as u32), *g);
+                        } else {
+                            // a second code of a character the encoder writes differently:
+                            // the character itself is looked up under its canonical code
+                            out.notes.insert("source:big5-non-canonical-code");
+                            out.disputed.insert(Ch::Uni(c as u32));
+                        }
+                    }
+                    Some(v) => {
+                        out.notes.insert("source:big5-sequence-code");
+                        for c in v {
+                            out.disputed.insert(Ch::Uni(c as u32));
+                        }
+                    }
+                    None => {
+                        out.notes.insert("source:big5-invalid-code");
+                    }
+                }
+            }
+        }
+    }
+    Ok(out)
+}
+
+// ---------------------------------------------------------------------------------------------
+// fixtures (cached per process; the cache is a pure function of the file)
+
+pub fn fixture_names() -> &'static Vec<String> {
+    static NAMES: OnceLock<Vec<String>> = OnceLock::new();
+    NAMES.get_or_init(|| {
+        let mut v = fixtures::list("fonts", &["ttf", "otf"], 700_000);
+        v.extend(fixtures::list("aots", &["otf", "ttf"], 700_000).into_iter().filter(|n| n.contains("cmap")));
+        v
+    })
+}
+
+pub fn fixture(name: &str) -> Option<Arc<Result<Source, String>>> {
+    static CACHE: OnceLock<Mutex<HashMap<String, Arc<Result<Source, String>>>>> = OnceLock::new();
+    let cache = CACHE.get_or_init(|| Mutex::new(HashMap::new()));
+    if let Some(s) = cache.lock().unwrap().get(name) {
+        return Some(s.clone());
+    }
+    let bytes = fixtures::read(name)?;
+    let s = Arc::new(read_source(name, bytes));
+    cache.lock().unwrap().insert(name.to_string(), s.clone());
+    Some(s)
+}
+
+// ---------------------------------------------------------------------------------------------
+// generated sources
+
+#[derive(Clone, Copy, Debug, PartialEq)]
+pub enum SrcKind {
+    WinBmp,
+    WinFull,
+    Uni03F4,
+    Uni04F12,
+    UniDense6,
+    UniDense10,
+    MacCharsOnly,
+    Symbol,
+    MacF0,
+    MacF6,
+    Big5F4,
+    Big5F2,
+}
+
+#[derive(Clone, Debug)]
+pub struct CRun {
+    pool: u8,
+    rnd: u32,
+    len: u16,
+    stride: u8,
+    gpat: u8,
+    g0: u16,
+}
+
+#[derive(Clone, Debug)]
+pub struct ListSpec {
+    style: u8,
+    k: u16,
+    picks: Vec<u32>,
+    order: u8,
+    seed: u32,
+}
+
+#[derive(Clone, Debug)]
+pub enum Target {
+    Plain,
+    PrinceUnrestricted,
+    PrinceMacRoman,
+    PrinceOmit,
+    PrinceMacRomanCmap(Vec<u8>),
+}
+
+#[derive(Clone, Debug)]
+pub struct GenCase {
+    n_glyphs: u16,
+    kind: SrcKind,
+    runs: Vec<CRun>,
+    big5: Vec<(u8, u32, u16)>,
+    layout: Vec<u32>,
+    first_char: Option<u16>,
+    list: ListSpec,
+    target: Target,
+}
+
+#[derive(Clone, Debug)]
+pub struct FixCase {
+    font: u32,
+    list: ListSpec,
+    target: Target,
+}
+
+fn crun() -> impl Strategy<Value = CRun> {
+    (
+        0u8..8,
+        any::<u32>(),
+        prop_oneof![40 => 1u16..8, 30 => 8u16..60, 10 => 60u16..400, 1 => 33_000u16..40_000],
+        prop_oneof![5 => Just(1u8), 1 => Just(2u8), 1 => Just(3u8), 2 => Just(4u8), 2 => Just(5u8), 2 => Just(6u8), 1 => Just(9u8)],
+        0u8..5,
+        any::<u16>(),
+    )
+        .prop_map(|(pool, rnd, len, stride, gpat, g0)| CRun { pool, rnd, len, stride, gpat, g0 })
+}
+
+fn list_spec() -> impl Strategy<Value = ListSpec> {
+    (
+        prop_oneof![3 => Just(0u8), 4 => Just(1u8), 2 => Just(2u8), 2 => Just(3u8), 2 => Just(4u8), 2 => Just(5u8)],
+        any::<u16>(),
+        proptest::collection::vec(any::<u32>(), 0..14),
+        0u8..3,
+        any::<u32>(),
+    )
+        .prop_map(|(style, k, picks, order, seed)| ListSpec { style, k, picks, order, seed })
+}
+
+fn target() -> impl Strategy<Value = Target> {
+    prop_oneof![
+        4 => Just(Target::Plain),
+        2 => Just(Target::PrinceUnrestricted),
+        4 => Just(Target::PrinceMacRoman),
+        1 => Just(Target::PrinceOmit),
+        1 => proptest::collection::vec(any::<u8>(), 256).prop_map(Target::PrinceMacRomanCmap),
+    ]
+}
+
+fn gen_case() -> impl Strategy<Value = GenCase> {
+    let kind = prop_oneof![
+        5 => Just(SrcKind::WinBmp),
+        4 => Just(SrcKind::WinFull),
+        2 => Just(SrcKind::Uni03F4),
+        2 => Just(SrcKind::Uni04F12),
+        1 => Just(SrcKind::UniDense6),
+        1 => Just(SrcKind::UniDense10),
+        5 => Just(SrcKind::MacCharsOnly),
+        4 => Just(SrcKind::Symbol),
+        2 => Just(SrcKind::MacF0),
+        2 => Just(SrcKind::MacF6),
+        1 => Just(SrcKind::Big5F4),
+        1 => Just(SrcKind::Big5F2),
+    ];
+    let n = prop_oneof![6 => 2u16..40, 1 => 40u16..250, 3 => 250u16..330, 1 => Just(600u16), 1 => 256u16..258];
+    let first = prop_oneof![2 => Just(None), 3 => Just(Some(0x20u16)), 4 => Just(Some(0xF020u16)), 1 => Just(Some(0xF000u16)), 1 => Just(Some(0x21u16))];
+    (
+        n,
+        kind,
+        proptest::collection::vec(crun(), 1..7),
+        proptest::collection::vec((any::<u8>(), any::<u32>(), any::<u16>()), 0..40),
+        proptest::collection::vec(any::<u32>(), 0..40),
+        first,
+        list_spec(),
+        target(),
+    )
+        .prop_map(|(n_glyphs, kind, runs, big5, layout, first_char, list, target)| GenCase { n_glyphs, kind, runs, big5, layout, first_char, list, target })
+}
+
+const BMP_BASES: [u32; 12] = [0x100, 0x370, 0x2000, 0x20AC, 0x2200, 0x3040, 0x4E00, 0xFB00, 0xFFF0, 0xFFFB, 0xD7F0, 0xE000];
+const EDGE_BASES: [u32; 6] = [0, 1, 0xFFFD, 0xFFFE, 0xFFFF, 0xD7FF];
+const ASTRAL_BASES: [u32; 6] = [0x10000, 0x1F600, 0x2F800, 0xE0100, 0x10FFF0, 0x10FFFF];
+
+/// code -> glyph model of a generated source
+fn gen_map(c: &GenCase) -> BTreeMap<u32, u16> {
+    let n = c.n_glyphs.max(2);
+    let gid = |r: &CRun, j: u32| -> u16 {
+        let m = (n - 1) as u32;
+        let v = match r.gpat {
+            0 | 1 => r.g0 as u32 + j,
+            2 => r.g0 as u32,
+            3 => mix64(r.g0 as u64 * 65537 + j as u64) as u32 & 0xFFFFFF,
+            _ => (r.g0 as u32 + 100_000).wrapping_sub(j),
+        };
+        1 + (v % m) as u16
+    };
+    let mut m = BTreeMap::new();
+    let (max_code, pools): (u32, &[u8]) = match c.kind {
+        SrcKind::WinBmp | SrcKind::Uni03F4 => (0xFFFF, &[0, 1, 2, 3, 4, 0, 3, 6]),
+        SrcKind::WinFull | SrcKind::Uni04F12 => (0x10FFFF, &[0, 1, 2, 3, 4, 5, 5, 6]),
+        SrcKind::UniDense6 => (0xFFFF, &[0, 1, 3, 3, 4, 0, 3, 6]),
+        SrcKind::UniDense10 => (0x10FFFF, &[0, 1, 3, 5, 4, 5, 5, 6]),
+        SrcKind::MacCharsOnly => (0xFFFF, &[0, 2, 2, 0, 2, 0, 2, 2]),
+        SrcKind::Symbol => (0xFFFF, &[6, 6, 0, 6, 7, 6, 0, 7]),
+        SrcKind::MacF0 | SrcKind::MacF6 => (0xFF, &[8, 8, 8, 8, 8, 8, 8, 8]),
+        SrcKind::Big5F4 | SrcKind::Big5F2 => {
+            // glyph ids folded into the font
+            return c06::big5_map(&c.big5).into_iter().map(|(k, g)| (k, 1 + g % (n - 1))).collect();
+        }
+    };
+    let dense = matches!(c.kind, SrcKind::UniDense6 | SrcKind::UniDense10);
+    let mut dense_base = None;
+    for r in &c.runs {
+        let pool = pools[(r.pool % 8) as usize];
+        let mut base = match pool {
+            0 => 0x20 + r.rnd % 0x5F,
+            1 => 0xA0 + r.rnd % 0x60,
+            2 => 0x80 + r.rnd % 0x80, // index into the Mac Roman table, resolved below
+            3 => BMP_BASES[pick(BMP_BASES.len(), r.rnd)] + (r.rnd >> 4) % 16,
+            4 => EDGE_BASES[pick(EDGE_BASES.len(), r.rnd)],
+            5 => ASTRAL_BASES[pick(ASTRAL_BASES.len(), r.rnd)] + (r.rnd >> 4) % 4,
+            6 => 0xF020 + r.rnd % 0xE0,
+            7 => 0xF000 + r.rnd % 0x120,
+            _ => r.rnd % 256,
+        };
+        if dense {
+            match dense_base {
+                None => dense_base = Some(base),
+                Some(b) => base = (b + (r.rnd >> 8) % 400).min(max_code),
+            }
+        }
+        // very long runs only where both the source and the output can hold them (format 12)
+        let len = if dense {
+            r.len.min(120)
+        } else if r.len > 400 && c.kind != SrcKind::Uni04F12 {
+            r.len % 400 + 1
+        } else {
+            r.len
+        } as u32;
+        let stride = if r.stride == 9 { 1 + (r.rnd >> 12) % 40 } else { r.stride as u32 };
+        for j in 0..len {
+            let code = if pool == 2 {
+                // successive Mac Roman high characters (stride applies to the table index)
+                let i = (base - 0x80 + j * stride) as usize;
+                if i >= 128 {
+                    break;
+                }
+                rm::MAC_ROMAN_HIGH[i]
+            } else {
+                match base.checked_add(j * stride) {
+                    Some(v) if v <= max_code => v,
+                    _ => break,
+                }
+            };
+            if c.kind != SrcKind::Symbol && !matches!(c.kind, SrcKind::MacF0 | SrcKind::MacF6) && char::from_u32(code).is_none() {
+                continue;
+            }
+            m.insert(code, gid(r, j));
+        }
+    }
+    if c.kind == SrcKind::MacF0 {
+        for g in m.values_mut() {
+            *g = 1 + (*g - 1) % 255u16.min(n - 1);
+        }
+    }
+    m
+}
+
+/// the complete generated font
+fn gen_font(c: &GenCase) -> Vec<u8> {
+    let map = gen_map(c);
+    let mk = |p: u16, e: u16, f: u16, map: BTreeMap<u32, u16>| RecModel { platform: p, encoding: e, format: f, map, extra_leads: BTreeSet::new() };
+    let bmp = || -> BTreeMap<u32, u16> { map.iter().filter(|(c, _)| **c <= 0xFFFF).map(|(c, g)| (*c, *g)).collect() };
+    let recs: Vec<RecModel> = match c.kind {
+        SrcKind::WinBmp | SrcKind::MacCharsOnly => vec![mk(3, 1, 4, map.clone())],
+        SrcKind::WinFull => vec![mk(3, 10, 12, map.clone()), mk(3, 1, 4, bmp())],
+        SrcKind::Uni03F4 => vec![mk(0, 3, 4, map.clone()), mk(1, 0, 0, BTreeMap::new())],
+        SrcKind::Uni04F12 => vec![mk(0, 4, 12, map.clone())],
+        SrcKind::UniDense6 => vec![mk(0, 3, 6, map.clone())],
+        SrcKind::UniDense10 => vec![mk(0, 4, 10, map.clone())],
+        SrcKind::Symbol => vec![mk(3, 0, 4, map.clone())],
+        SrcKind::MacF0 => vec![mk(1, 0, 0, map.clone())],
+        SrcKind::MacF6 => vec![mk(1, 0, 6, map.clone())],
+        SrcKind::Big5F4 => vec![mk(3, 4, 4, map.clone())],
+        SrcKind::Big5F2 => {
+            let mut r = mk(3, 4, 2, map.clone());
+            r.extra_leads = (0x81u8..=0xFE).collect();
+            let leads = enc::format2_leads(&r.map, &r.extra_leads);
+            r.map.retain(|c, _| *c >= 0x100 || !leads.contains(&(*c as u8)));
+            vec![r]
+        }
+    };
+    let mut ch = Chooser::new(&c.layout);
+    let subs: Vec<Vec<u8>> = recs.iter().map(|r| c06::encode_record(r, &mut ch).bytes).collect();
+    let records: Vec<(u16, u16, usize)> = recs.iter().enumerate().map(|(i, r)| (r.platform, r.encoding, i)).collect();
+    let cmap = enc::cmap_table(&records, &subs, &mut ch);
+    let mut bf = BasicFont::with_glyphs(c.n_glyphs.max(2));
+    bf.long_loca = c.n_glyphs > 300;
+    bf.extra.push((*b"cmap", cmap));
+    if let Some(fc) = c.first_char {
+        bf.extra.push((*b"OS/2", os2_v4(fc, 0xFFFF, 400)));
+    }
+    let mut tables = bf.tables();
+    if c.first_char.is_none() {
+        tables.retain(|t| &t.0 != b"OS/2");
+    }
+    build_sfnt(TTF, &tables)
+}
+
+/// `[0] ++ distinct ids`
+fn glyph_list(spec: &ListSpec, n: u16, mapped: &[u16]) -> Vec<u16> {
+    let n = n.max(1) as u32;
+    let mut ids: Vec<u16> = Vec::new();
+    match spec.style {
+        0 => {
+            for p in &spec.picks {
+                ids.push((p % n) as u16);
+            }
+        }
+        1 => {
+            for (i, p) in spec.picks.iter().enumerate() {
+                if !mapped.is_empty() && i % 4 != 3 {
+                    ids.push(mapped[pick(mapped.len(), *p)]);
+                } else {
+                    ids.push((p % n) as u16);
+                }
+            }
+        }
+        2 => {
+            let k = 1 + spec.k as u32 % n.min(700);
+            ids.extend((0..k).map(|g| g as u16));
+        }
+        3 => {
+            ids.extend((0..n.min(2000)).map(|g| g as u16));
+        }
+        5 => {
+            for p in &spec.picks {
+                ids.push((p % n) as u16);
+            }
+        }
+        _ => {
+            // cross 255/256: 250..300 glyphs when the font has them
+            let k = (250 + spec.k as u32 % 60).min(n);
+            let start = if n > k { spec.seed % (n - k) } else { 0 };
+            ids.extend((start..start + k).map(|g| g as u16));
+        }
+    }
+    if spec.style == 5 {
+        // the 255/256 edge: a mapped glyph receives exactly new id 255, 256 or 257
+        if let (true, Some(p)) = (n >= 259, spec.picks.first()) {
+            let m = if mapped.is_empty() { 1 } else { mapped[pick(mapped.len(), *p)] };
+            let at = 254 + (spec.k % 3) as usize;
+            let mut out: Vec<u16> = vec![0];
+            out.extend((1..n as u16).filter(|g| *g != m).take(at));
+            out.push(m);
+            if spec.order == 1 {
+                // a few more glyphs behind it
+                let have: BTreeSet<u16> = out.iter().copied().collect();
+                out.extend((1..n as u16).filter(|g| !have.contains(g)).take(3));
+            }
+            return out;
+        }
+    }
+    let mut seen = BTreeSet::new();
+    ids.retain(|g| *g != 0 && seen.insert(*g));
+    match spec.order {
+        0 => ids.sort(),
+        1 => {
+            ids.sort();
+            ids.reverse();
+        }
+        _ => ids.sort_by_key(|g| mix64(*g as u64 ^ ((spec.seed as u64) << 20))),
+    }
+    let mut out = vec![0u16];
+    out.extend(ids);
+    out
+}
+
+// ---------------------------------------------------------------------------------------------
+// the check
+
+struct Output {
+    enc: Enc,
+    format: u16,
+    pe: (u16, u16),
+    table: BTreeMap<u32, u16>,
+    raw_f0: Option<Vec<u8>>,
+}
+
+fn read_output(out: &[u8]) -> Result<Option<Output>, Fail> {
+    let cmap = match find_table(out, b"cmap") {
+        Some(c) => c,
+        None => return Ok(None),
+    };
+    let recs = rm::records(cmap).ok_or_else(|| fail("output-cmap-unreadable", "cmap header of the subset is malformed".into()))?;
+    let (k, e) = rm::select(&recs).ok_or_else(|| fail("output-cmap-unreadable", format!("no usable record among {:?}", recs)))?;
+    let st = rm::subtable(cmap, recs[k].offset).ok_or_else(|| fail("output-cmap-unreadable", "subtable format not readable".into()))?;
+    let table = st.mappings(400_000).ok_or_else(|| fail("output-cmap-unreadable", format!("format {} subtable of the subset is malformed", st.format)))?;
+    let raw_f0 = if st.format == 0 { st.data.get(6..262).map(|s| s.to_vec()) } else { None };
+    Ok(Some(Output { enc: e, format: st.format, pe: (recs[k].platform, recs[k].encoding), table, raw_f0 }))
+}
+
+fn load_font(bytes: &[u8]) -> Result<Font<allsorts::font_data::DynamicFontTableProvider<'_>>, String> {
+    let fd = ReadScope::new(bytes).read::<FontData<'_>>().map_err(|e| format!("{:?}", e))?;
+    let prov = fd.table_provider(0).map_err(|e| format!("{:?}", e))?;
+    Font::new(prov).map_err(|e| format!("{:?}", e))
+}
+
+fn run_subset(src: &Source, list: &[u16], target: &Target) -> Result<Result<Vec<u8>, String>, Fail> {
+    let fd = ReadScope::new(&src.bytes)
+        .read::<FontData<'_>>()
+        .map_err(|e| fail("source-unreadable", format!("{}: {:?}", src.name, e)))?;
+    let prov = fd.table_provider(0).map_err(|e| fail("source-unreadable", format!("{}: {:?}", src.name, e)))?;
+    let r = match target {
+        Target::Plain => allsorts::subset::subset(&prov, list),
+        Target::PrinceUnrestricted => allsorts::subset::prince::subset(&prov, list, PrinceCmapTarget::Unrestricted, true),
+        Target::PrinceMacRoman => allsorts::subset::prince::subset(&prov, list, PrinceCmapTarget::MacRoman, true),
+        Target::PrinceOmit => allsorts::subset::prince::subset(&prov, list, PrinceCmapTarget::Omit, true),
+        Target::PrinceMacRomanCmap(a) => {
+            let mut arr = [0u8; 256];
+            arr.copy_from_slice(&a[..256]);
+            allsorts::subset::prince::subset(&prov, list, PrinceCmapTarget::MacRomanCmap(Box::new(arr)), true)
+        }
+    };
+    Ok(r.map_err(|e| format!("{:?}", e)))
+}
+
+fn ch_str(c: &Ch) -> String {
+    match c {
+        Ch::Uni(v) => format!("U+{:04X}", v),
+        Ch::Sym(v) => format!("symbol code {:#X}", v),
+    }
+}
+
+pub fn check(src: &Source, list: &[u16], target: &Target, generated: bool, rec: &mut Rec) -> CaseResult {
+    let prince = !matches!(target, Target::Plain);
+    if prince && src.flavour != Flavour::Ttf {
+        // prince::subset returns a bare CFF table for CFF sources: no cmap to examine
+        rec.class("excluded:prince-cff-output-has-no-cmap");
+        return Ok(());
+    }
+    let sc = match source_chars(src) {
+        Ok(s) => s,
+        Err(why) => {
+            rec.class(&format!("excluded:{}", why));
+            return Ok(());
+        }
+    };
+    for n in &sc.notes {
+        rec.class(n);
+    }
+    let new_id: HashMap<u16, u16> = list.iter().enumerate().map(|(i, g)| (*g, i as u16)).collect();
+    let first_src = src.first_char.unwrap_or(0x20);
+
+    // S restricted to the target's repertoire
+    let mac_target = matches!(target, Target::PrinceMacRoman);
+    let mut disputed = sc.disputed.clone();
+    let mut s_map: BTreeMap<Ch, u16> = BTreeMap::new();
+    if mac_target && src.enc == Enc::Symbol {
+        // a symbol font maps a character through the documented legacy rule
+        for b in 0u32..256 {
+            let c = rm::mac_roman_decode(b as u8);
+            if b == 0xDB {
+                disputed.insert(Ch::Uni(c));
+                disputed.insert(Ch::Uni(rm::MAC_ROMAN_DB_OLD));
+                continue;
+            }
+            if mac_set_code(c).is_none() {
+                continue;
+            }
+            if let Some(code) = rm::symbol_code(c, first_src) {
+                if let Some(g) = src.table.get(&code) {
+                    s_map.insert(Ch::Uni(c), *g);
+                }
+            }
+        }
+    } else if mac_target {
+        for (c, g) in &sc.map {
+            if let Ch::Uni(v) = c {
+                if *v == rm::MAC_ROMAN_DB_OLD || *v == 0x20AC {
+                    disputed.insert(*c);
+                } else if mac_set_code(*v).is_some() {
+                    s_map.insert(*c, *g);
+                }
+            }
+        }
+    } else {
+        s_map = sc.map.clone();
+    }
+    // expected output
+    let mut exp: BTreeMap<Ch, u16> = BTreeMap::new();
+    for (c, g) in &s_map {
+        if let Some(n) = new_id.get(g) {
+            if *n != 0 && !disputed.contains(c) {
+                exp.insert(*c, *n);
+            }
+        }
+    }
+    rec.hash_bytes(src.name.as_bytes());
+    rec.hash_bytes(&list.iter().flat_map(|g| g.to_be_bytes()).collect::<Vec<u8>>());
+    rec.hash_bytes(format!("{:?}", target).as_bytes());
+
+    let out = match run_subset(src, list, target)? {
+        Ok(o) => o,
+        Err(e) => {
+            if matches!(target, Target::PrinceMacRomanCmap(_)) && list.len() > 256 {
+                rec.class("error:supplied-array-with-more-than-256-glyphs");
+                return Ok(());
+            }
+            if !generated {
+                // fixtures may be unsupported for reasons outside this property (C07/C09)
+                rec.class("excluded:fixture-subset-error");
+                return Ok(());
+            }
+            if exp.len() > 8000 {
+                rec.class("error:large-mapping-refused");
+                return Ok(());
+            }
+            return Err(fail("subset-error", format!("{}: subset failed: {} ({} glyphs, {} expected mappings, target {:?})", src.name, e, list.len(), exp.len(), short(target))));
+        }
+    };
+    rec.artefact("source", if src.bytes.len() <= 200_000 { &src.bytes } else { &[] });
+    rec.artefact("subset", if out.len() <= 200_000 { &out } else { &[] });
+    let is_sfnt = matches!(parse_directory(&out), Some((f, _)) if f == TTF || f == OTTO);
+    if !is_sfnt {
+        return Err(fail("output-not-sfnt", format!("{}: output is not an sfnt", src.name)));
+    }
+    let o = read_output(&out)?;
+    match target {
+        Target::PrinceOmit => {
+            if o.is_some() {
+                return Err(fail("omit-has-cmap", "Omit target: the subset has a cmap table".into()));
+            }
+            rec.class("target:omit");
+            rec.set_nontrivial(!exp.is_empty());
+            return Ok(());
+        }
+        Target::PrinceMacRomanCmap(a) => {
+            let o = o.ok_or_else(|| fail("no-cmap", "supplied array: the subset has no cmap".into()))?;
+            if o.pe != (1, 0) || o.format != 0 || o.raw_f0.as_deref() != Some(&a[..]) {
+                return Err(fail("supplied-array-altered", format!("supplied array: output is ({},{}) format {} and differs from the array", o.pe.0, o.pe.1, o.format)));
+            }
+            rec.class("target:supplied-array");
+            rec.set_nontrivial(a.iter().any(|b| *b != 0));
+            return Ok(());
+        }
+        _ => {}
+    }
+    let o = o.ok_or_else(|| fail("no-cmap", format!("{}: the subset has no cmap table", src.name)))?;
+
+    // output characters
+    let mut got: BTreeMap<Ch, u16> = BTreeMap::new();
+    for (code, g) in &o.table {
+        let c = match o.enc {
+            Enc::Unicode => {
+                if char::from_u32(*code).is_none() {
+                    return Err(fail("mapping-invented", format!("output maps the non-scalar code {:#X}", code)));
+                }
+                Ch::Uni(*code)
+            }
+            Enc::Symbol => Ch::Sym(*code),
+            Enc::MacRoman => {
+                if *code > 255 {
+                    return Err(fail("mapping-invented", format!("Mac Roman output maps code {:#X}", code)));
+                }
+                let b = *code as u8;
+                if b == 0xDB {
+                    // currency sign or euro sign: whichever the source has
+                    let cur = Ch::Uni(rm::MAC_ROMAN_DB_OLD);
+                    let euro = Ch::Uni(0x20AC);
+                    if disputed.contains(&cur) || disputed.contains(&euro) {
+                        continue;
+                    }
+                    got.insert(if exp.contains_key(&euro) && !exp.contains_key(&cur) { euro } else { cur }, *g);
+                    continue;
+                }
+                if rm::mac_roman_pdf_excluded(b) {
+                    return Err(fail("mapping-invented", format!("Mac Roman output maps code {:#04X}, which is outside allsorts' Mac Roman set", b)));
+                }
+                Ch::Uni(rm::mac_roman_decode(b))
+            }
+            Enc::Big5 => return Err(fail("output-encoding", "the subset's cmap is Big5 encoded".into())),
+        };
+        got.insert(c, *g);
+    }
+    rec.class(&format!("emitted:({},{}) f{}", o.pe.0, o.pe.1, o.format));
+    rec.class(&format!("source:{:?} ({},{}) f{}", src.enc, src.platform_encoding.0, src.platform_encoding.1, src.format));
+    rec.class(match target {
+        Target::Plain => "target:subset::subset",
+        Target::PrinceUnrestricted => "target:prince-unrestricted",
+        Target::PrinceMacRoman => "target:prince-macroman",
+        _ => "target:other",
+    });
+    rec.class_if(list.len() > 256, "glyphs>256");
+    rec.class_if(list.len() > 255 && o.format == 0, "glyphs>255,format-0");
+    rec.class_if(exp.len() > 255, "mappings>255");
+    rec.class_if(exp.len() > 32767, "mappings>32767");
+    rec.class_if(exp.keys().any(|c| matches!(c, Ch::Uni(v) if *v > 0xFFFF)), "plane:astral");
+    rec.class_if(exp.keys().any(|c| matches!(c, Ch::Uni(0xFFFF))), "char:U+FFFF");
+    rec.class_if(exp.keys().any(|c| matches!(c, Ch::Uni(0))), "char:U+0000");
+    rec.class_if(src.flavour != Flavour::Ttf, "source:cff");
+    {
+        // gaps between consecutive retained characters (what the format 4 writer reasons about)
+        let codes: Vec<u32> = exp.keys().map(|c| match c { Ch::Uni(v) | Ch::Sym(v) => *v }).collect();
+        let gaps: BTreeSet<u32> = codes.windows(2).map(|w| w[1] - w[0] - 1).collect();
+        rec.class_if(gaps.contains(&3), "gap:3");
+        rec.class_if(gaps.contains(&4), "gap:4");
+        rec.class_if(gaps.contains(&5), "gap:5");
+        let mut by_glyph: HashMap<u16, u32> = HashMap::new();
+        for g in exp.values() {
+            *by_glyph.entry(*g).or_insert(0) += 1;
+        }
+        rec.class_if(by_glyph.values().any(|n| *n >= 3), "glyph-with-3+-chars");
+    }
+    if mac_target && o.pe != (1, 0) {
+        return Err(fail("macroman-target-encoding", format!("MacRoman target: output is ({},{}) format {}", o.pe.0, o.pe.1, o.format)));
+    }
+
+    // compare (both directions)
+    if got != exp {
+        // defect models: does a specific, already described deviation explain the whole output?
+        let trunc = |m: &BTreeMap<Ch, u16>| -> BTreeMap<Ch, u16> { m.iter().filter(|(_, n)| **n & 0xFF != 0).map(|(c, n)| (*c, *n & 0xFF)).collect() };
+        if o.format == 0 && list.len() > 256 && got == trunc(&exp) {
+            let (c, n) = exp.iter().find(|(c, n)| got.get(c) != Some(n)).unwrap();
+            return Err(fail(
+                "format0-glyph-id-truncated",
+                format!(
+                    "{}: {} glyphs retained, every retained character is Mac Roman: the format 0 cmap maps {} to glyph {} instead of {} (new id truncated to 8 bits); target {}",
+                    src.name, list.len(), ch_str(c), got.get(c).copied().unwrap_or(0), n, short(target)
+                ),
+            ));
+        }
+        if mac_target && src.enc == Enc::Symbol {
+            // the inverse of the legacy symbol rule as cmap/subset.rs computes it: codes outside
+            // F000..F0FF are first moved *up* by 0xF000
+            let mut old: BTreeMap<Ch, u16> = BTreeMap::new();
+            for (code, g) in &src.table {
+                let c0 = if (0xF000..=0xF0FF).contains(code) { *code } else { *code + 0xF000 };
+                if let Some(v) = (c0 + 0x20).checked_sub(first_src as u32) {
+                    if let (Some(n), true) = (new_id.get(g), mac_set_code(v).is_some() || v == rm::MAC_ROMAN_DB_OLD) {
+                        if *n != 0 && !disputed.contains(&Ch::Uni(v)) {
+                            old.insert(Ch::Uni(v), *n);
+                        }
+                    }
+                }
+            }
+            if got == old || (o.format == 0 && list.len() > 256 && got == trunc(&old)) {
+                let c = exp.keys().chain(got.keys()).find(|c| got.get(c) != exp.get(c)).unwrap();
+                return Err(fail(
+                    "symbol-to-macroman-inverse-rule",
+                    format!(
+                        "{}: symbol cmap, usFirstCharIndex {:#X}, MacRoman target: Font::lookup_glyph_index's rule maps {} to new glyph {:?}, the subset maps it to {:?} (subset.rs inverts the rule for codes outside F000..F0FF by adding 0xF000)",
+                        src.name, first_src, ch_str(c), exp.get(c), got.get(c)
+                    ),
+                ));
+            }
+        }
+        for (c, n) in &exp {
+            let other = got.get(c);
+            if other != Some(n) {
+                let kind = if other.is_none() { "mapping-lost" } else { "mapping-wrong-glyph" };
+                return Err(fail(
+                    kind,
+                    format!(
+                        "{}: {} maps to old glyph {} (new id {}), the subset's ({},{}) format {} cmap maps it to {:?}; target {}",
+                        src.name, ch_str(c), s_map.get(c).copied().unwrap_or(0), n, o.pe.0, o.pe.1, o.format, other, short(target)
+                    ),
+                ));
+            }
+        }
+        for (c, g) in &got {
+            if !exp.contains_key(c) && !disputed.contains(c) {
+                return Err(fail(
+                    "mapping-invented",
+                    format!(
+                        "{}: the subset maps {} to glyph {}; the source maps it to old glyph {:?} which is {}; target {}",
+                        src.name,
+                        ch_str(c),
+                        g,
+                        s_map.get(c),
+                        if s_map.get(c).map_or(false, |g| new_id.contains_key(g)) { "retained" } else { "not retained / not mapped" },
+                        short(target)
+                    ),
+                ));
+            }
+        }
+    }
+
+    // the library itself on the reloaded subset
+    let mut font = load_font(&out).map_err(|e| fail("subset-unloadable", format!("{}: Font::new on the subset: {}", src.name, e)))?;
+    let first_out = find_table(&out, b"OS/2").and_then(|t| t.get(64..66)).map(|b| u16::from_be_bytes([b[0], b[1]])).unwrap_or(0x20);
+    let mut probes: Vec<(char, u16)> = Vec::new();
+    match o.enc {
+        Enc::Unicode | Enc::MacRoman => {
+            let in_domain = |v: u32| o.enc == Enc::Unicode || (mac_set_code(v).is_some() && v != rm::MAC_ROMAN_DB_OLD);
+            let step = (exp.len() / 400).max(1);
+            for (i, (c, n)) in exp.iter().enumerate() {
+                if let Ch::Uni(v) = c {
+                    if i % step == 0 {
+                        probes.push((char::from_u32(*v).unwrap(), *n));
+                    }
+                    for d in [v.wrapping_sub(1), v + 1] {
+                        if let Some(ch) = char::from_u32(d) {
+                            if i % step == 0 && in_domain(d) && !disputed.contains(&Ch::Uni(d)) {
+                                probes.push((ch, exp.get(&Ch::Uni(d)).copied().unwrap_or(0)));
+                            }
+                        }
+                    }
+                }
+            }
+            // characters of the source that were not retained
+            for (c, _) in sc.map.iter().filter(|(c, _)| !exp.contains_key(c)).take(60) {
+                if let Ch::Uni(v) = c {
+                    if in_domain(*v) && !disputed.contains(c) {
+                        probes.push((char::from_u32(*v).unwrap(), 0));
+                    }
+                }
+            }
+        }
+        Enc::Symbol => {
+            if first_out == first_src && first_src >= 0x20 {
+                // the same legacy rule applies before and after
+                for v in (0x20u32..0x100).chain(0xF020..0xF100) {
+                    let ch = char::from_u32(v).unwrap();
+                    let code = rm::symbol_code(v, first_src).unwrap();
+                    probes.push((ch, exp.get(&Ch::Sym(code)).copied().unwrap_or(0)));
+                }
+            } else {
+                rec.class("excluded:symbol-usFirstCharIndex-not-carried-over");
+            }
+        }
+        Enc::Big5 => {}
+    }
+    for (ch, n) in &probes {
+        let (g, _) = font.lookup_glyph_index(*ch, MatchingPresentation::NotRequired, None);
+        if g != *n {
+            return Err(fail(
+                "lookup-on-subset",
+                format!("{}: lookup_glyph_index(U+{:04X}) on the reloaded subset = {}, expected {} (output ({},{}) format {})", src.name, *ch as u32, g, n, o.pe.0, o.pe.1, o.format),
+            ));
+        }
+    }
+    rec.evaluations(probes.len() as u64 + exp.len() as u64);
+    rec.set_nontrivial(!exp.is_empty());
+    rec.sample(|| format!("{} ({:?} f{}), {} glyphs, target {}: {} retained mappings, emitted ({},{}) f{}", src.name, src.enc, src.format, list.len(), short(target), exp.len(), o.pe.0, o.pe.1, o.format));
+    Ok(())
+}
+
+fn short(t: &Target) -> &'static str {
+    match t {
+        Target::Plain => "subset::subset",
+        Target::PrinceUnrestricted => "prince Unrestricted",
+        Target::PrinceMacRoman => "prince MacRoman",
+        Target::PrinceOmit => "prince Omit",
+        Target::PrinceMacRomanCmap(_) => "prince MacRomanCmap",
+    }
+}
+
+fn check_gen(c: &GenCase, rec: &mut Rec) -> CaseResult {
+    let bytes = gen_font(c);
+    let src = match read_source("generated", bytes) {
+        Ok(s) => s,
+        Err(e) => panic!("generated source not readable by the reference reader: {}", e),
+    };
+    // self-check: the reader sees the model
+    let model = {
+        let mut m = gen_map(c);
+        if c.kind == SrcKind::Big5F2 {
+            let leads: BTreeSet<u8> = (0x81u8..=0xFE).collect();
+            m.retain(|c, _| *c >= 0x100 || !leads.contains(&(*c as u8)));
+        }
+        m
+    };
+    assert_eq!(src.table, model, "refmodel reader and generator model disagree ({:?})", c.kind);
+    rec.class(&format!("gen:{:?}", c.kind));
+    let mut mapped: Vec<u16> = src.table.values().copied().collect();
+    mapped.sort();
+    mapped.dedup();
+    let list = glyph_list(&c.list, src.num_glyphs, &mapped);
+    check(&src, &list, &c.target, true, rec)
+}
+
+fn check_fix(c: &FixCase, rec: &mut Rec) -> CaseResult {
+    let names = fixture_names();
+    if names.is_empty() {
+        rec.class("excluded:no-fixtures");
+        return Ok(());
+    }
+    let name = &names[pick(names.len(), c.font)];
+    let f = match fixture(name) {
+        Some(f) => f,
+        None => {
+            rec.class("excluded:fixture-missing");
+            return Ok(());
+        }
+    };
+    let src = match &*f {
+        Ok(s) => s,
+        Err(_) => {
+            rec.class("excluded:fixture-without-usable-cmap");
+            return Ok(());
+        }
+    };
+    if src.flavour == Flavour::Other {
+        rec.class("excluded:fixture-without-outlines");
+        return Ok(());
+    }
+    let mut mapped: Vec<u16> = src.table.values().copied().filter(|g| *g < src.num_glyphs).collect();
+    mapped.sort();
+    mapped.dedup();
+    let list = glyph_list(&c.list, src.num_glyphs, &mapped);
+    check(src, &list, &c.target, false, rec)
+}
 
 impl Property for C08 {
     fn id(&self) -> &'static str {
         "C08"
     }
     fn rule(&self) -> String {
-        "not implemented".to_string()
+        "(font, glyph list [0]++distinct ids, target) triples: fixtures (tests/fonts, AOTS cmap fonts) and generated \
+         fonts whose cmap stresses the writer (Mac Roman only / BMP / astral / symbol / Mac Roman and Big5 sources; \
+         gaps 3/4/5; U+0000/FFFE/FFFF; consecutive / constant / scattered glyph runs; 250-330 and 600 glyph lists). \
+         Source and output cmaps are read by refmodel::cmap. Non-trivial = at least one retained glyph that is mapped \
+         (expected output mapping non-empty); distinct = hash of (font, list, target)"
+            .into()
     }
-    fn run(&self, _ctx: &mut Ctx) {}
+    fn assumptions(&self) -> Vec<String> {
+        vec![
+            "new id of a requested glyph = its position in the glyph list (C07 checks the renumbering itself)".into(),
+            "allsorts' Mac Roman set = Mac OS Roman minus fifteen codes left undefined by design; characters of code 0xDB (currency/euro) are not asserted".into(),
+            "Big5 sources: a character is looked up under the WHATWG encoder's code; characters that also have a non-canonical code in the table are not asserted".into(),
+            "symbol output is compared through Font::lookup_glyph_index only when usFirstCharIndex is the same before and after (TrueType subsets carry no OS/2 table)".into(),
+            "subset errors are tolerated for fixtures, for supplied arrays with more than 256 glyphs and for more than 8000 retained mappings".into(),
+        ]
+    }
+    fn run(&self, ctx: &mut Ctx) {
+        let n = ctx.cases(24_000, 1_500_000);
+        ctx.section("generated", n, gen_case(), |c, rec| check_gen(c, rec));
+        let n = ctx.cases(6_000, 300_000);
+        ctx.section(
+            "fixtures",
+            n,
+            (any::<u32>(), list_spec(), target()).prop_map(|(font, list, target)| FixCase { font, list, target }),
+            |c, rec| check_fix(c, rec),
+        );
+    }
 }
